@@ -38,7 +38,7 @@ Proof. intros rc files lk o h Hne. exact (edit_no_temp_left the_params find c_ST
 Example C08_nonvacuous :
   let f := utf8_encode [105;110;102;111;33;40;34;98;34;41;59] in
   let rc := mkRunCfg (mkConfig false [([108;111;103], [105;110;102;111])]) true in
-  let o flt := mkOracle None None (fun _ => false) (fun _ => false) (fun _ => flt) false in
+  let o flt := mkOracle None None (fun _ => false) (fun _ => false) (fun _ => flt) LkOk in
   ro_exit (edit rc [f] LAbsent (o FCreate)) = XErr /\
   ro_exit (edit rc [f] LAbsent (o (FWrite 2))) = XErr /\
   ro_exit (edit rc [f] LAbsent (o (FWrite 3))) = XErr /\
